@@ -304,6 +304,9 @@ type Executor struct {
 	// executors made by a factory (func(flag) Executor { return func(...) {...} }): the constant
 	// each captured variable of the closure holds for this registration
 	FreeConst map[*ssa.FreeVar]*ssa.Const
+	// ... and, for captured parameters bound to something else (an option struct literal), the
+	// argument value at the factory call, to be evaluated in the registering function
+	FreeArg map[*ssa.FreeVar]ssa.Value
 }
 
 // executors reads the (name, closure) pairs registered with RegisterExexutor in the framework.
@@ -322,19 +325,20 @@ func (p *Program) executors() (list []Executor, unresolved []*ssa.Call) {
 			name, okN := constString(args[1])
 			var ef *ssa.Function
 			var freeConst map[*ssa.FreeVar]*ssa.Const
+			var freeArg map[*ssa.FreeVar]ssa.Value
 			switch x := strip(args[2]).(type) {
 			case *ssa.MakeClosure:
 				ef, _ = x.Fn.(*ssa.Function)
 			case *ssa.Function:
 				ef = x
 			case *ssa.Call:
-				ef, freeConst = factoryClosure(x)
+				ef, freeConst, freeArg = factoryClosureArgs(x)
 			}
 			if !okN || ef == nil {
 				unresolved = append(unresolved, c)
 				return
 			}
-			list = append(list, Executor{Name: name, Fn: ef, Reg: c, FreeConst: freeConst})
+			list = append(list, Executor{Name: name, Fn: ef, Reg: c, FreeConst: freeConst, FreeArg: freeArg})
 		})
 	}
 	sort.Slice(list, func(i, j int) bool { return list[i].Name < list[j].Name })
@@ -344,23 +348,29 @@ func (p *Program) executors() (list []Executor, unresolved []*ssa.Call) {
 // factoryClosure: call is fac(consts...) where the framework function fac returns, on its only
 // return, a closure; the closure and the constants its captured parameters hold.
 func factoryClosure(call *ssa.Call) (*ssa.Function, map[*ssa.FreeVar]*ssa.Const) {
+	f, c, _ := factoryClosureArgs(call)
+	return f, c
+}
+
+func factoryClosureArgs(call *ssa.Call) (*ssa.Function, map[*ssa.FreeVar]*ssa.Const, map[*ssa.FreeVar]ssa.Value) {
 	fac := staticCallee(call.Common())
 	if fac == nil || fac.Blocks == nil || !inFramework(fac) {
-		return nil, nil
+		return nil, nil, nil
 	}
 	rets := returnsOf(fac)
 	if len(rets) != 1 || len(rets[0].Results) != 1 {
-		return nil, nil
+		return nil, nil, nil
 	}
 	mc, ok := strip(retOperand(rets[0], 0)).(*ssa.MakeClosure)
 	if !ok {
-		return nil, nil
+		return nil, nil, nil
 	}
 	fn, ok := mc.Fn.(*ssa.Function)
 	if !ok {
-		return nil, nil
+		return nil, nil, nil
 	}
 	consts := map[*ssa.FreeVar]*ssa.Const{}
+	others := map[*ssa.FreeVar]ssa.Value{}
 	for i, fv := range fn.FreeVars {
 		if i >= len(mc.Bindings) {
 			break
@@ -377,11 +387,13 @@ func factoryClosure(call *ssa.Call) (*ssa.Function, map[*ssa.FreeVar]*ssa.Const)
 			if fp == par && j < len(call.Common().Args) {
 				if cv, ok := call.Common().Args[j].(*ssa.Const); ok {
 					consts[fv] = cv
+				} else {
+					others[fv] = call.Common().Args[j]
 				}
 			}
 		}
 	}
-	return fn, consts
+	return fn, consts, others
 }
 
 // GoSite is a go statement.
